@@ -364,6 +364,8 @@ def _label(v, ctx):
             return FWD_INDEX
     if ctx["node"] is not None and v is ctx["node"]:
         return FWD_NODE
+    if ctx["node"] is not None and isinstance(v, list) and v is getattr(ctx["node"], "copy_subdir", None):
+        return FWD_NODE + ".copy_subdir"
     if isinstance(v, str):
         return "'" + v
     if v is None:
@@ -387,11 +389,11 @@ def forward_probe():
         d = Path(os.path.realpath(d))
         pages = d / "pages"
         (pages / "sub" / "deep").mkdir(parents=True)
-        (pages / "index.md").write_text("title: Top\n\ntext\n")
+        (pages / "index.md").write_text("title: Top\ncopy_subdir: c17-own-of-top\n\ntext\n")
         (pages / "a.md").write_text("title: A\n\ntext\n")
-        (pages / "sub" / "index.md").write_text("title: Sub\n\ntext\n")
+        (pages / "sub" / "index.md").write_text("title: Sub\ncopy_subdir: c17-own-of-sub\n\ntext\n")
         (pages / "sub" / "b.md").write_bytes("title: Café\n\ntext\n".encode("latin-1"))
-        (pages / "sub" / "deep" / "index.md").write_text("title: Deep\n\ntext\n")
+        (pages / "sub" / "deep" / "index.md").write_text("title: Deep\ncopy_subdir: c17-own-of-deep\n\ntext\n")
         (pages / "sub" / "deep" / "c.md").write_text("title: C\n\ntext\n")
         orig_gpt, orig_node = pt.get_page_tree, pt.PageNode
         gsig, nsig = inspect.signature(orig_gpt), inspect.signature(orig_node.__init__)
@@ -585,6 +587,118 @@ def _probe_write(root, ext, entries, state):
             dest.write_text("data\n")
 
 
+# ---- the copy loops and the project's copy_subdir, observed ----
+# (name, kind, content) with kind dir / page (content = (title, own copy_subdir list)) / file
+COPY_PROBE_PROJECT = ["figures", "media"]
+COPY_PROBE_DIR = [
+    ("index.md", "page", ("Top", ["images", "nowhere", "plots"])),
+    ("a.md", "page", ("A", [])),
+    ("z.md", "page", ("Z", ["plots"])),
+    ("images", "dir", [("i.png", "file", None)]),
+    ("plots", "dir", [("p.dat", "file", None), ("raw", "dir", [("r.dat", "file", None)])]),
+    ("media", "dir", [("top.dat", "file", None)]),
+    ("notes.txt", "file", None),
+    ("zz.txt", "file", None),
+    ("solo", "dir", [
+        ("index.md", "page", ("Solo", ["keep"])),
+        ("keep", "dir", [("k.dat", "file", None)]),
+        ("media", "dir", [("not-copied.dat", "file", None)]),
+    ]),
+    ("tut", "dir", [
+        ("index.md", "page", ("Tutorial", [])),
+        ("b.md", "page", ("B", [])),
+        ("media", "dir", [("fig.dat", "file", None), ("sub", "dir", [("deep.dat", "file", None)])]),
+        ("data.txt", "file", None),
+        ("zeta.txt", "file", None),
+        ("howto", "dir", [
+            ("index.md", "page", ("Howto", ["screenshots", "downloads", "extra"])),
+            ("leaf.md", "page", ("Leaf", [])),
+            ("downloads", "dir", [("tool.zip", "file", None)]),
+            ("extra", "dir", [("e.dat", "file", None)]),
+            ("media", "dir", [("x.dat", "file", None)]),
+            ("figures", "dir", [("f.dat", "file", None)]),
+            ("more", "dir", [
+                ("index.md", "page", ("More", [])),
+                ("figures", "dir", [("g.dat", "file", None)]),
+                ("m.txt", "file", None),
+            ]),
+        ]),
+    ]),
+]
+
+
+def _copy_probe_write(root, entries):
+    root.mkdir(parents=True, exist_ok=True)
+    for name, kind, content in entries:
+        if kind == "dir":
+            _copy_probe_write(root / name, content)
+        elif kind == "page":
+            title, copy = content
+            (root / name).write_text("".join([f"title: {title}\n"] + [f"copy_subdir: {c}\n" for c in copy]) + "\ntext\n")
+        else:
+            (root / name).write_text("data of " + name + "\n")
+
+
+def _copy_probe_lean(entries):
+    out = []
+    for name, kind, content in entries:
+        if kind == "dir":
+            out.append(f".dir {chars(name)} [{', '.join(_copy_probe_lean(content))}]")
+        elif kind == "page":
+            title, copy = content
+            out.append(f".file {chars(name)} ⟨some {chars(title)}, [], {strlist(copy)}, []⟩")
+        else:
+            out.append(f".file {chars(name)} ⟨none, [], [], []⟩")
+    return out
+
+
+def copy_probe():
+    """the real `get_page_tree` (started with the project list COPY_PROBE_PROJECT, the way `ford.main` starts it) and
+    the real `PagetreePage.writeout` of every page, in iteration order, on COPY_PROBE_DIR: pages that set their own
+    `copy_subdir` and pages that do not, at four depths, lists whose FIRST entry does not exist next to the page, a
+    leaf page and its index page naming the same directory.  Only the rendering of the page (`BasePage.writeout`) is
+    replaced by writing an empty file.  Observed: the `copy_subdir` in effect for every page, and everything that
+    exists below <output>/page afterwards."""
+    import os
+    from types import SimpleNamespace
+
+    common.import_ford()
+    import ford.output as fo
+    from ford._markdown import MetaMarkdown
+    from ford.pagetree import get_page_tree
+
+    with common.scratch_dir("ford-c17-copy-") as d:
+        d = Path(os.path.realpath(d))
+        out = d / "out"
+        _copy_probe_write(d / "pages", COPY_PROBE_DIR)
+        (out / "page").mkdir(parents=True)
+        with common.quiet():
+            top = get_page_tree(d / "pages", list(COPY_PROBE_PROJECT), out, MetaMarkdown(base_url=out))
+        if top is None:
+            raise NotFound("get_page_tree returns nothing for the copy probe directory")
+        nodes = list(top)
+        data = {"output_dir": out, "relative": True, "page_dir": d / "pages"}
+        proj = SimpleNamespace(settings=SimpleNamespace(project_url=out))
+        orig = fo.BasePage.writeout
+
+        def stub(self):
+            Path(self.outfile).write_text("")
+
+        fo.BasePage.writeout = stub
+        try:
+            with common.quiet():
+                for n in nodes:
+                    fo.PagetreePage(data, proj, n).writeout()
+        finally:
+            fo.BasePage.writeout = orig
+        listing = []
+        for dp, dn, fn in os.walk(out / "page"):
+            rel = [x for x in Path(os.path.relpath(dp, out / "page")).parts if x != "."]
+            listing += [(rel + [x], True) for x in dn] + [(rel + [x], False) for x in fn]
+        return {"copyProbeNodes": [(list(Path(n.path).parts), [str(c) for c in n.copy_subdir]) for n in nodes],
+                "copyProbeOut": sorted(listing)}
+
+
 def _lean_entries(entries):
     out = []
     for name, kind, content, how in entries:
@@ -624,6 +738,7 @@ def extract(fresh=False):
             "mdSuffix": suffix,
             **forward_probe(),
             **alias_probe(),
+            **copy_probe(),
         }
     return _CACHE["t"]
 
@@ -719,6 +834,16 @@ def walkProbeDir : List Entry := [{', '.join(_lean_entries(PROBE_DIR))}]
 def walkProbePages : List PathS := [{', '.join(strlist(x) for x in t["walkProbePages"])}]
 /-- `[n.files for n in get_page_tree(<probe directory>)]`, observed -/
 def walkProbeFiles : List (List Str) := [{', '.join(strlist(x) for x in t["walkProbeFiles"])}]
+
+/-! the copy loops and the project's `copy_subdir`, probed: the real `get_page_tree(<copyProbeDir>, copyProbeProj, ...)`
+    and the real `PagetreePage.writeout` of every page in iteration order (only the rendering replaced by an empty file) -/
+
+def copyProbeProj : List Str := {strlist(COPY_PROBE_PROJECT)}
+def copyProbeDir : List Entry := [{', '.join(_copy_probe_lean(COPY_PROBE_DIR))}]
+/-- `[(n.path, n.copy_subdir) for n in tree]`, observed -/
+def copyProbeNodes : List (PathS × List Str) := [{', '.join('(' + strlist(p) + ', ' + strlist(c) + ')' for p, c in t["copyProbeNodes"])}]
+/-- everything below `<output>/page` after all pages were written (`true` = directory), observed -/
+def copyProbeOut : List (PathS × Bool) := [{', '.join('(' + strlist(p) + ', ' + ('true' if b else 'false') + ')' for p, b in t["copyProbeOut"])}]
 
 end Ford.Gen.C17
 """
